@@ -15,6 +15,10 @@ from vf.lib import bz
 from vf.lib import treemodel as tm
 
 PROPERTY = "C10"
+# trees have at most a dozen entries: a comparison that has not answered after
+# 30 s does not terminate (see the finding of that name)
+CASE_TIMEOUT = 15
+TIMEOUT_SIGNATURE = "C10/iter_changes-with-path-filter-does-not-terminate"
 LEVEL = "exploration"
 TECHNIQUE = ("differential testing of the selected InterTree optimiser "
              "against the generic implementation and a model diff, plus "
